@@ -103,7 +103,13 @@ class Route:
             if f_out:
                 prt = f_out(prt)
             if f_in:
-                assert f_in(prt)[1]  # `pos` must be > 0 if match
+                # the filter must accept the value where it stands: followed by the
+                # literal text up to the next wildcard (look-ahead filters such as
+                # `path` need it), consuming exactly the value (which may be empty)
+                nxt_end = pattern_out.find('\r', cidx)
+                nxt = pattern_out[cidx:] if nxt_end < 0 else pattern_out[cidx:nxt_end]
+                value, pos, _ = f_in(prt + nxt)
+                assert value is not None and pos == len(prt)
             ret.append(prt)
 
         if clen:
